@@ -55,6 +55,19 @@ def gen(rng, tier):
             pre = addrs[k][:d]
             pre = rng.choice([pre.lower(), pre.upper(), pre])
             cases.append(Case("cli.new_vanity %s %s - default %s" % (hx("12"), hx("0x" + pre), st), tags=("model", "prefix-of-entry", "digits:%d" % d), runner="cli", meta={"threads": 0}))
+    # the same for the other lengths, and with the FIRST entry as the one that matches (every candidate, the first one
+    # included, is a phrase of the requested length made from one request of 4L/3 bytes: request log checked below)
+    for L, nb in ((15, 20), (18, 24), (21, 28), (24, 32)):
+        ents2 = [bytes(rng.getrandbits(8) for _ in range(nb)) for _ in range(12)]
+        outs = core.run_driver("model", ["cli.address %s - default" % hx(" ".join(_b.from_entropy(e))) for e in ents2])
+        st2 = ",".join(e.hex() for e in ents2)
+        for k in (0, 1, 7):
+            parts = outs[k].split(" ")
+            if parts[0] != "ok" or len(parts) != 2:
+                continue
+            a = bytes.fromhex(parts[1]).decode().strip()[2:]
+            for d in (1, 2, 3):
+                cases.append(Case("cli.new_vanity %s %s - default %s" % (hx(str(L)), hx("0x" + a[:d]), st2), tags=("model", "prefix-of-entry", "L:%d" % L, "entry:%d" % k), runner="cli", meta={"threads": 0, "log": True}))
     # refused prefixes / selectors (no search happens)
     for bad in ["", "0x", "ab", "0xg", "0xG1", "0x1g", "x1", "0X1", "0x é", "0x-1", " 0x1", "0x1 ", "0xé"]:
         st = stream(rng, 3, 16)
@@ -83,6 +96,16 @@ run_cli = cli.run_cli
 def extra_checks(cases, impl, model, verdicts, tier, rng, cov):
     """(b): threaded searches with real entropy, judged by the property itself"""
     problems = []
+    # request accounting for the stream-driven searches that logged: every request is 4L/3 bytes
+    nlog = 0
+    for c in cases:
+        if "requests" in c.meta:
+            nlog += 1
+            L = int(bytes.fromhex(c.line.split(" ")[1]).decode())
+            if any(r != L * 4 // 3 for r in c.meta["requests"]):
+                problems.append(("witness", "a vanity search for %d words made an entropy request that is not %d bytes" % (L, L * 4 // 3), {"line": c.line[:3000], "requests": c.meta["requests"][:20]}))
+                break
+    cov["vanity_request_logs_checked"] = nlog
     runs = []
     reps = 3 if tier == "thorough" else 1
     threads = [1, 2, 16, None]
